@@ -147,6 +147,9 @@ func (c *Ctx) Violation(sig, msg string, replay any) {
 	c.violSigs[sig] = true
 	c.nviol++
 	if c.nviol > 12 {
+		if c.nviol <= 300 {
+			fmt.Printf("VIOLATION-ALSO property=%s signature=%s\n", c.Prop, clean(sig))
+		}
 		return
 	}
 	h := sha256.Sum256([]byte(sig))
